@@ -2856,7 +2856,18 @@ class TrackFragmentRunBox(FullBox):
             # explicit base_data_offset
             self.data_offset = mdat_sample_start - moof.traf.tfhd.base_data_offset
             cur = dest.tell()
-            if (self.flags & self.data_offset_present) == 0:
+            tfhd = moof.traf.tfhd
+            if ((self.flags & self.data_offset_present) == 0 and
+                    (tfhd.flags & tfhd.base_data_offset_present) != 0):
+                # this box has no room for a data_offset field, adding one
+                # would overwrite the start of the next box. The samples
+                # start at the explicit base_data_offset, which can be
+                # updated without changing the size of any box
+                self.data_offset = 0
+                tfhd.base_data_offset = mdat_sample_start
+                dest.seek(tfhd.position)
+                tfhd.encode(dest, depth=1)
+            elif (self.flags & self.data_offset_present) == 0:
                 self.flags |= self.data_offset_present
                 dest.seek(self.position + self.header_size)
                 self.encode_fields(dest)
